@@ -18,6 +18,14 @@ Theorem C16_shared_resolver_accesses_hold_the_mutex :
   && goast_mutex_is_plain = true.
 Proof. vm_compute. reflexivity. Qed.
 
+(* The shared resolver's mutable state is exactly what Model/Conc.v and C16_cache_is_transparent
+   speak about: the per-file import cache (keyed by the file, so one file's view never reaches
+   another) and the lazily defaulted package-name resolver.  Any further field that the resolver
+   reads or writes -- a memo shared between files, say -- is state the model does not have. *)
+Theorem C16_shared_state_is_the_per_file_cache :
+  forallb (fun a => match a with (_, f, _, _) => String.eqb f "files" || String.eqb f "RestorerResolver" end) goast_accesses = true.
+Proof. vm_compute. reflexivity. Qed.
+
 (* No package-level variable of the module is assigned by any function: decorators and
    restorers of different goroutines share no other mutable state. *)
 Theorem C16_no_package_level_state_is_written : forallb (fun v => negb (snd v)) package_vars = true.
@@ -57,6 +65,7 @@ Example C16_nonvacuous :
 Proof. vm_compute. repeat split. Qed.
 
 Print Assumptions C16_shared_resolver_accesses_hold_the_mutex.
+Print Assumptions C16_shared_state_is_the_per_file_cache.
 Print Assumptions C16_no_package_level_state_is_written.
 Print Assumptions C16_locked_accesses_are_ordered.
 Print Assumptions C16_cache_is_transparent.
